@@ -1332,7 +1332,13 @@ func (c *Conn) readLine() (string, error) {
 		}
 	}
 
-	return c.text.ReadLine()
+	line, err := c.text.ReadLine()
+	if err == nil && c.lineLimitReader.LineLimit > 0 && c.lineLimitReader.curLineLength > c.lineLimitReader.LineLimit {
+		// bufio hands out what it has buffered of a too long line before it
+		// reports the error.
+		return "", ErrTooLongLine
+	}
+	return line, err
 }
 
 func (c *Conn) reset() {
